@@ -184,13 +184,17 @@ func forceGroups(t *rapid.T, ty *desc.T) {
 			if f.Tags["valid"] == "" {
 				f.Tags["valid"] = item
 				// a member may carry rules of its own in front of (or behind) the group rule: it stays a member
-				switch rapid.IntRange(0, 5).Draw(t, "ownRule") {
+				switch rapid.IntRange(0, 7).Draw(t, "ownRule") {
 				case 1:
 					f.Tags["valid"] = "required," + item
 				case 2:
 					f.Tags["valid"] = item + ",required|own"
 				case 3:
 					f.Tags["valid"] = "nosuchrule," + item
+				case 4:
+					f.Tags["valid"] = "in=('x,y'/x/y/zz/7)," + item // a quoted rule list with the group rule last
+				case 5:
+					f.Tags["valid"] = item + ",in=('p,q'/x/y/zz/7)|own in" // ... and one that ends otherwise
 				}
 			} else {
 				f.Tags["valid"] += "," + item
